@@ -429,7 +429,8 @@ W_AGG_WINDOW = {'steps': table_steps(FIXED_TABLES[0]) + [['q', [
 
 def corpus():
     return [
-        W_COUNT_EMPTY_WINDOW, W_AGG_WINDOW,
+        W_COUNT_EMPTY_WINDOW,      # fixed ce48805: [:0].count() answered the full count; now AssertionError like every window
+        W_AGG_WINDOW,
         # reversed() of a '-' key, of DESC, of a list; DESC(DESC(x)); default order reversed
         {'steps': table_steps(FIXED_TABLES[0]) + [['q', [
             sel_query(['select', ['true'], ['val', ['str', '-a']], False, False], [['reversed']]),
@@ -1176,13 +1177,7 @@ def finding_of(f):
     if q.get('k') != 'sel' or q.get('slice') is None:
         return None
     win = o.get('win') or [None, None]
-    if q['fin'][0] == 'count':
-        # the window passes count()'s assertions only when start and end are both falsy: an empty window [..:0]
-        if not win[0] and win[1] == 0 and o['res'][0] == 'int':
-            full = expected_rows(q, f['rows'])
-            if o['res'] == ['int', len(full)]:
-                return 'count_ignores_empty_window'
-        return None
+    # (count() on an empty window [..:0] answering the full count was repaired in /repo ce48805: no longer a known finding)
     if q['fin'][0] == 'agg' and win != [None, None]:
         q2 = dict(q)
         q2['slice'] = None
